@@ -854,6 +854,81 @@ def _import_worker(job):
     return out
 
 
+def _rule_action_worker(job):
+    """`@pass_single S: ...` must mean exactly actions={'S': pass_single}: the helper rules made for the
+    groups and repetitions of the rule keep their own actions"""
+    import parglare
+    import parglare.actions as pa
+    from parglare import Grammar, Parser
+    from lib import impl
+    out = {"name": job["name"], "res": {}}
+    act = getattr(pa, job["action"])
+    ps = []
+    for how in ("prefix", "dict"):
+        try:
+            with impl.time_limit(20), impl.quiet():
+                if how == "prefix":
+                    p = Parser(Grammar.from_string("@%s %s" % (job["action"], job["text_s"])))
+                else:
+                    p = Parser(Grammar.from_string(job["text_s"]), actions={job["start"]: act})
+            ps.append((p, "ok"))
+        except BaseException as e:  # noqa
+            ps.append((None, impl.exc_kind(e) + ": " + str(e)[:120]))
+    out["construct"] = [x[1].split(":")[0] for x in ps]
+    out["msgs"] = [x[1] for x in ps]
+    if ps[0][0] is not None and ps[1][0] is not None:
+        for w in job["inputs"]:
+            r = []
+            for p, _ in ps:
+                try:
+                    with impl.time_limit(5):
+                        r.append(["ok", _canon(p.parse(w))])
+                except parglare.SyntaxError as e:
+                    r.append(["rej", e.location.start_position])
+                except BaseException as e:  # noqa
+                    r.append(["exc", impl.exc_kind(e)])
+            out["res"][w] = r
+    return out
+
+
+def rule_level_action(ctx, st, info, results, quick):
+    jobs = []
+    for rec, r in zip(info, results):
+        if rec["fam"] not in ("clean", "curated") or not rec.get("nc") or has_greedy(rec["ast"]) \
+                or r.get("g_s") != "ok" or count_ops(rec["ast"])["group"] == 0:
+            continue
+        if [n for n, _ in rec["ast"]["rules"]].count(rec["ast"]["rules"][0][0]) != 1:
+            continue        # a rule written in two parts must carry the same action on both
+        ins = sorted((r.get("res", {}).get("lr", {}) or {}).get("inputs", {}).keys())[:30]
+        jobs.append({"name": rec["name"], "text_s": rec["text_s"], "start": rec["ast"]["rules"][0][0],
+                     "inputs": ins, "action": ["pass_single", "pass_none", "pass_inner"][len(jobs) % 3]})
+        if len(jobs) >= (30 if quick else 300):
+            break
+    with mp.Pool(common.NPROC) as pool:
+        outs = pool.map(_rule_action_worker, jobs, chunksize=1)
+    st["rule_action_grammars"] = len(jobs)
+    st["rule_action_inputs"] = 0
+    for job, o in zip(jobs, outs):
+        rep = {"grammar": "@%s %s" % (job["action"], job["text_s"]),
+               "compared_with": "the same rules without the prefix and actions={%r: parglare.actions.%s}"
+               % (job["start"], job["action"])}
+        c = o["construct"]
+        if c[0] != c[1]:
+            if "Timeout" not in c:
+                ctx.violation("rule with an @action prefix and groups: construction differs (%s vs %s)"
+                              % (o["msgs"][0], o["msgs"][1]), rep, key="ruleact-load")
+            continue
+        for w, (a, b) in o["res"].items():
+            st["rule_action_inputs"] += 1
+            if "exc" in (a[0], b[0]) and "Timeout" in (a[1], b[1]):
+                continue
+            if a != b:
+                ctx.violation("an @action prefix on a rule changes what its groups/repetitions return: prefix %s, "
+                              "actions= %s" % (json.dumps(a)[:150], json.dumps(b)[:150]), dict(rep, input=w),
+                              key="ruleact-result")
+                break
+
+
 def imported_sugar(ctx, st, info, results, quick):
     jobs = []
     for rec, r in zip(info, results):
@@ -1157,6 +1232,7 @@ def run(ctx):
                                               % (want, json.dumps(s[1])), rep2, key="greedy-munch")
     probe_none(ctx, st)
     imported_sugar(ctx, st, info, results, quick)
+    rule_level_action(ctx, st, info, results, quick)
     cov = {
         "evaluations": st["parses_compared"] + st["dump_compared"] + st.get("probe_none_cases", 0),
         "distinct_nontrivial": len(distinct),
